@@ -1,2 +1,270 @@
-/-! line-protocol driver for property C16 (stub) -/
-def main (_args : List String) : IO Unit := pure ()
+import MirVerif.Model.DupRestore
+/-!
+Line-protocol driver for property C16 (exe `mirdrv_c16`).
+
+Input (stdin), one command per line:
+
+  F ovn=<n> ng=<n> ltn=<n> lab=<n>     start a new function description (lab = ctx->curr_label_num)
+  V <ty> <name>                        next element of func->vars
+  RD <ty> <reg> <name> <hard>          next element of reg_descs (`-` for an empty name)
+  N2R <rdn>*   /   R2R <rdn>*          members of name2rdn_tab / reg2rdn_tab
+  I @<id> <name> d=<@id|-> n=<nops> <op>*   an instruction; appended to func->insns (W) in order
+  LR <@id|-> <@id|-> <@id|-> <@id|->   label label2 orig_label orig_label2 of the next lref
+  DUP | RESTORE                        run the model function
+  E <edit…>                            position-based edit of the working copy (see `runEdit`)
+  DUMP                                 print the canonical description of the current state
+  PRINT                                print what `MIR_output_item` would show (model `print`)
+  KINDS <name>*                        print the classification of each opcode name
+
+operands:  L@<id> | L-   label pointer;  R<reg>;  M<ty>,<base>,<index>,<rest>;  X<text>
+Every edit is executed through `applyEdit` of the model, after checking `Edit.legal mark`.
+-/
+open MirVerif.DupRestore
+
+structure St where
+  s : State := { heap := ⟨fun _ => none⟩, next := 0, func := default }
+  mark : Nat := 0          -- allocation mark at the last DUP
+  labnum : Nat := 0        -- ctx->curr_label_num
+  illegal : Nat := 0       -- number of edits that were not legal (must stay 0)
+
+def parsePtr (t : String) : Option Nat :=
+  if t == "-" then none else (t.drop 1).toNat?
+
+def showPtr : Option Nat → String
+  | none => "-"
+  | some i => s!"@{i}"
+
+def parseOp (t : String) : Op :=
+  if t.startsWith "L" then .lab (parsePtr (t.drop 1).toString)
+  else if t.startsWith "R" then .reg ((t.drop 1).toNat?.getD 0)
+  else if t.startsWith "M" then
+    match ((t.drop 1).toString.splitOn ",") with
+    | ty :: b :: i :: rest => .mem ty (b.toNat?.getD 0) (i.toNat?.getD 0) (",".intercalate rest)
+    | _ => .other t
+  else .other ((t.drop 1).toString)
+
+def showOp : Op → String
+  | .lab p => "L" ++ showPtr p
+  | .reg r => s!"R{r}"
+  | .mem ty b i rest => s!"M{ty},{b},{i},{rest}"
+  | .other t => "X" ++ t
+
+def kv (t : String) : String := ((t.splitOn "=").getD 1 "")
+
+def showKind : Kind → String
+  | .label => "label" | .jmpi => "jmpi" | .switch => "switch" | .laddr => "laddr"
+  | .branch => "branch" | .other => "other"
+
+def sortNat (l : List Nat) : List Nat := l.mergeSort (· ≤ ·)
+
+def nopsOf (i : Insn) : Nat := if i.kind = .label then 0 else i.ops.length
+
+def showInsn (h : Heap) (id : Nat) : String :=
+  match h id with
+  | none => s!"I @{id} <freed>"
+  | some i =>
+    s!"I @{id} {i.name} d={showPtr i.data} n={nopsOf i}" ++
+      String.join (i.ops.map (fun o => " " ++ showOp o))
+
+def orDash (s : String) : String := if s.isEmpty then "-" else s
+
+def dump (st : St) : List String :=
+  let f := st.s.func
+  [s!"F ovn={f.originalVarsNum} ng={f.nglobals} ltn={f.lastTempNum} lab={st.labnum}"] ++
+  f.vars.map (fun v => s!"V {v.ty} {v.name}") ++
+  (f.regDescs.drop 1).map (fun d => s!"RD {d.ty} {d.reg} {orDash d.name} {orDash d.hard}") ++
+  ["N2R" ++ String.join ((sortNat f.name2rdn).map (fun r => s!" {r}")),
+   "R2R" ++ String.join ((sortNat f.reg2rdn).map (fun r => s!" {r}"))] ++
+  f.vars.map (fun v =>
+    match lookupName f v.name with
+    | none => s!"LK {v.name} ?"
+    | some d => s!"LK {v.name} {d.ty} {d.reg} {orDash d.hard} {regName f d.reg}") ++
+  ["O" ++ String.join (f.originalInsns.map (fun i => s!" @{i}")),
+   "W" ++ String.join (f.insns.map (fun i => s!" @{i}"))] ++
+  (f.originalInsns ++ f.insns).map (showInsn st.s.heap) ++
+  f.lrefs.map (fun r =>
+    s!"LR {showPtr r.label} {showPtr r.label2} {showPtr r.origLabel} {showPtr r.origLabel2}")
+
+def showPrinted (p : Printed) : List String :=
+  p.vars.map (fun (a, b, c) => s!"PV {a} {b} {orDash c}") ++
+  p.insns.map (fun (n, ops) => s!"PI {n}" ++ String.join (ops.map (fun o => " " ++ o))) ++
+  p.lrefs.map (fun (a, b) => s!"PL {a} {orDash b}")
+
+/-- labels of the working list, in list order -/
+def wlabels (s : State) : List Nat :=
+  s.func.insns.filter (fun i => match s.heap i with
+    | some insn => insn.kind == .label
+    | none => false)
+
+def nthLabel (s : State) (k : Nat) : Option Nat :=
+  let ls := wlabels s
+  if ls.isEmpty then none else ls[k % ls.length]?
+
+def applyChecked (st : St) (e : Edit) : St :=
+  if decide (e.legal st.mark) then { st with s := applyEdit st.s e }
+  else { st with illegal := st.illegal + 1 }
+
+def applyAll (st : St) (es : List Edit) : St := es.foldl applyChecked st
+
+def insertAt (l : List Nat) (p : Nat) (x : Nat) : List Nat := l.take p ++ [x] ++ l.drop p
+
+def mkInsn (name : String) (ops : List Op) : Insn :=
+  { kind := kindOfName name, name := name, ops := ops, data := none }
+
+/-- insert a freshly allocated instruction before position `pos % (len+1)` -/
+def insNew (st : St) (pos : Nat) (insn : Insn) : St :=
+  let w := st.s.func.insns
+  let p := pos % (w.length + 1)
+  let id := st.s.next
+  applyAll st [.setInsn id insn, .setList (insertAt w p id)]
+
+def natOf (t : String) : Nat := t.toNat?.getD 0
+
+/-- position-based edits, the same interpretation as harness/c16_struct.c `run_edit` -/
+def runEdit (st : St) (ws : List String) : St :=
+  let w := st.s.func.insns
+  let len := w.length
+  match ws with
+  | ["ins", pos, "mov", a, b] => insNew st (natOf pos) (mkInsn "mov" [.reg (natOf a), .reg (natOf b)])
+  | ["ins", pos, "label"] =>
+    let st1 := { st with labnum := st.labnum + 1 }
+    insNew st1 (natOf pos) (mkInsn "label" [.other s!"int:{st1.labnum}"])
+  | ["ins", pos, "jmp", k] =>
+    match nthLabel st.s (natOf k) with
+    | none => st
+    | some l => insNew st (natOf pos) (mkInsn "jmp" [.lab (some l)])
+  | ["ins", pos, "bt", k, r] =>
+    match nthLabel st.s (natOf k) with
+    | none => st
+    | some l => insNew st (natOf pos) (mkInsn "bt" [.lab (some l), .reg (natOf r)])
+  | ["ins", pos, "switch", r, k1, k2] =>
+    match nthLabel st.s (natOf k1), nthLabel st.s (natOf k2) with
+    | some l1, some l2 =>
+      insNew st (natOf pos) (mkInsn "switch" [.reg (natOf r), .lab (some l1), .lab (some l2)])
+    | _, _ => st
+  | ["del", pos] =>
+    if len = 0 then st else
+    let p := natOf pos % len
+    match w[p]? with
+    | none => st
+    | some id =>
+      match st.s.heap id with
+      | none => st
+      | some insn =>
+        if insn.kind = .label then st
+        else applyAll st [.setList (w.take p ++ w.drop (p + 1)), .free id]
+  | ["move", a, b] =>
+    if len = 0 then st else
+    let p := natOf a % len
+    match w[p]? with
+    | none => st
+    | some id =>
+      let w1 := w.take p ++ w.drop (p + 1)
+      let q := natOf b % (w1.length + 1)
+      applyAll st [.setList (insertAt w1 q id)]
+  | ["setop", pos, idx, kind, v] =>
+    if len = 0 then st else
+    match w[natOf pos % len]? with
+    | none => st
+    | some id =>
+      match st.s.heap id with
+      | none => st
+      | some insn =>
+        if insn.kind = .label || insn.ops.isEmpty then st
+        else
+          let i := natOf idx % insn.ops.length
+          let newOp : Option Op :=
+            if kind == "reg" then some (.reg (natOf v))
+            else if kind == "int" then some (.other s!"int:{v}")
+            else (nthLabel st.s (natOf v)).map (fun l => Op.lab (some l))
+          match newOp with
+          | none => st
+          | some o => applyAll st [.setInsn id { insn with ops := insn.ops.set i o }]
+  | ["setdata", pos, k] =>
+    if len = 0 then st else
+    match w[natOf pos % len]? with
+    | none => st
+    | some id =>
+      match st.s.heap id with
+      | none => st
+      | some insn =>
+        let d := if k == "-" then none else nthLabel st.s (natOf k)
+        applyAll st [.setInsn id { insn with data := d }]
+  | ["setcode", pos, name] =>
+    if len = 0 then st else
+    match w[natOf pos % len]? with
+    | none => st
+    | some id =>
+      match st.s.heap id with
+      | none => st
+      | some insn =>
+        -- only between plain three-operand arithmetic codes (same nops, no labels)
+        if insn.kind = .other && insn.ops.length = 3 && kindOfName name = .other then
+          applyAll st [.setInsn id { insn with name := name }]
+        else st
+  | ["newtemp", ty] => applyAll st [.newTemp ty]
+  | ["addreg", ty, name] => applyAll st [.addReg ty name]
+  | ["lref", j, k1, k2] =>
+    let n := st.s.func.lrefs.length
+    if n = 0 then st else
+    match nthLabel st.s (natOf k1) with
+    | none => st
+    | some l1 =>
+      let l2 := if k2 == "-" then none else nthLabel st.s (natOf k2)
+      applyAll st [.setLref (natOf j % n) (some l1) l2]
+  | _ => st
+
+def addInsn (st : St) (ws : List String) : St :=
+  match ws with
+  | idt :: name :: d :: _n :: ops =>
+    let id := (parsePtr idt).getD 0
+    let insn : Insn := { kind := kindOfName name, name := name, ops := ops.map parseOp,
+                         data := parsePtr (kv d) }
+    let s := st.s
+    { st with s := { heap := s.heap.set id (some insn), next := max s.next (id + 1),
+                     func := { s.func with insns := s.func.insns ++ [id] } } }
+  | _ => st
+
+def undash (s : String) : String := if s == "-" then "" else s
+
+def step (st : St) (ws : List String) : St × List String :=
+  match ws with
+  | "F" :: a :: b :: c :: d :: _ =>
+    ({ s := { heap := ⟨fun _ => none⟩, next := 0,
+              func := { (default : Func) with originalVarsNum := natOf (kv a), nglobals := natOf (kv b),
+                                              lastTempNum := natOf (kv c),
+                                              regDescs := [⟨"i64", 0, "", ""⟩] } },
+       mark := 0, labnum := natOf (kv d), illegal := 0 }, [])
+  | ["V", ty, name] =>
+    ({ st with s := { st.s with func := { st.s.func with vars := st.s.func.vars ++ [⟨ty, name⟩] } } }, [])
+  | ["RD", ty, reg, name, hard] =>
+    ({ st with s := { st.s with func := { st.s.func with
+        regDescs := st.s.func.regDescs ++ [⟨ty, natOf reg, undash name, undash hard⟩] } } }, [])
+  | "N2R" :: rs =>
+    ({ st with s := { st.s with func := { st.s.func with name2rdn := rs.map natOf } } }, [])
+  | "R2R" :: rs =>
+    ({ st with s := { st.s with func := { st.s.func with reg2rdn := rs.map natOf } } }, [])
+  | "I" :: rest => (addInsn st rest, [])
+  | ["LR", a, b, c, d] =>
+    ({ st with s := { st.s with func := { st.s.func with
+        lrefs := st.s.func.lrefs ++ [⟨parsePtr a, parsePtr b, parsePtr c, parsePtr d⟩] } } }, [])
+  | ["DUP"] => ({ st with s := duplicate st.s, mark := st.s.next }, [])
+  | ["RESTORE"] => ({ st with s := restore st.s }, [])
+  | "E" :: e => (runEdit st e, [])
+  | ["DUMP"] => (st, dump st ++ [s!"END illegal={st.illegal}"])
+  | ["PRINT"] => (st, showPrinted (print st.s) ++ ["END"])
+  | "KINDS" :: names => (st, names.map (fun n => s!"K {n} {showKind (kindOfName n)}"))
+  | _ => (st, [])
+
+partial def loop (h : IO.FS.Stream) (out : IO.FS.Stream) (st : St) : IO Unit := do
+  let line ← h.getLine
+  if line.isEmpty then return ()
+  let ws := (line.trimAscii.toString.splitOn " ").filter (· ≠ "")
+  let (st', o) := step st ws
+  for l in o do out.putStrLn l
+  loop h out st'
+
+def main (_args : List String) : IO Unit := do
+  let out ← IO.getStdout
+  loop (← IO.getStdin) out {}
+  out.flush
